@@ -73,17 +73,24 @@ def w_arr22(base):
 
 def w_arr31(base):
     def fn():
+        # K1:M1 holds a zero: the IFERROR array formula is context sensitive (element-wise only inside an array
+        # formula) and its operands are evaluated -- scheduling points -- after the array context was entered
         spec = S({'A1': 1, 'B1': 2, 'C1': 3, 'D1:D3': {'array': '=A1:C1+1'}, 'E1': '=SUM(D1:D3)',
-                  'F1:H2': {'array': '=A1:B1&"x"'}})
+                  'F1:H2': {'array': '=A1:B1&"x"'}, 'K1': 1, 'L1': 0, 'M1': 3,
+                  'F4:H4': {'array': '=IFERROR(A1:C1/K1:M1,-1)'}})
         m = W.compile_inmem(spec)
-        return [tagged(m.evaluate('S!E1')), tagged(m.evaluate('S!D1:D3')), tagged(m.evaluate('S!F1:H2'))]
+        return [tagged(m.evaluate('S!E1')), tagged(m.evaluate('S!D1:D3')), tagged(m.evaluate('S!F1:H2')),
+                tagged(m.evaluate('S!F4:H4'))]
     return fn
 
 
 def w_plain(base):
     def fn():
-        m = W.compile_inmem(S({'A1': 1, 'B1': '=A1+1', 'C1': '=B1*2', 'D1': '=C1&""', 'E1': '=SUM(A1:C1)'}))
-        return [tagged(m.evaluate('S!D1')), tagged(m.evaluate('S!E1'))]
+        # F1: an ordinary cell whose IFERROR sees an array operand -- outside an array formula it is not element-wise,
+        # so the #DIV/0! element survives into SUM
+        m = W.compile_inmem(S({'A1': 1, 'B1': '=A1+1', 'C1': '=B1*2', 'D1': '=C1&""', 'E1': '=SUM(A1:C1)',
+                               'K1': 1, 'L1': 0, 'M1': 3, 'F1': '=SUM(IFERROR(A1:C1/K1:M1,0))'}))
+        return [tagged(m.evaluate('S!D1')), tagged(m.evaluate('S!E1')), tagged(m.evaluate('S!F1'))]
     return fn
 
 
